@@ -496,6 +496,29 @@ func (p *Program) verifyLemma(lm *Lemma) (u *Unit) {
 		if l2 == nil {
 			bail("lemma %s uses unknown lemma %s", name, ul.Lemma)
 		}
+		if l2 == lm {
+			// induction: an instance of the lemma itself at a strictly smaller, non-negative value of the
+			// induction parameter (both facts are proof obligations of this unit)
+			idx := -1
+			for k, prm := range lm.Params {
+				if prm.Name == lm.Induct {
+					idx = k
+				}
+			}
+			if lm.Induct == "" || idx < 0 {
+				bail("lemma %s uses itself but declares no `induct PARAM`", name)
+			}
+			cur := st.names[lm.Induct].(Sc)
+			av := x.evalExpr(fr, &st, ul.Args[idx].Expr, opts)
+			if u, isU := av.(Untyped); isU {
+				av = x.coerceTo(u, cur.Sort, true)
+			}
+			x.vc.oblige(&Obligation{Name: fmt.Sprintf("lemma %s#induct.decreases%d", name, len(x.vc.Obls)+1), Kind: "lemma", Func: name, Guard: tTrue,
+				Goal: mkAnd(bvcmp("bvslt", av.(Sc).T, cur.T), bvcmp("bvsle", lit(cur.W(), 0), cur.T)),
+				Src: "induction on " + lm.Induct + ": the instance is at a smaller value and the parameter is non-negative under the hypotheses"})
+			x.useLemma(fr, &st, ul, opts)
+			continue
+		}
 		if l2.Pkg == lm.Pkg && !(l2.File == lm.File && l2.Line < lm.Line) {
 			bail("lemma %s may only use lemmas declared before it (%s is not)", name, ul.Lemma)
 		}
